@@ -688,7 +688,16 @@ Inductive prim :=
 | PSetHash (k : N) (b : bool)
 | PIncDefer (k : N)
 | PCreate (k : N) (creator : option N) (det : bool) (need : N) (safe stored : bool) (dur : N)
-          (res : list (str * N)).
+          (res : list (str * N))
+(* node creation / deletion / take-over (the operations of trellis.py that the transaction model
+   model/Graph.v performs; see model/SchedGraph.v) *)
+| PCreateFile (k : N) (label : str) (st : N) (det : bool) (creator : option N)
+| PDeleteStep (k : N)
+| PDeleteFile (k : N)
+| PPlaceFile (k : N) (creator : option N) (det : bool)
+| PSetNeed (k need : N)
+| PSetDuration (k d : N)
+| PSetRes (k : N) (res : list (str * N)).
 
 (* INSERT OR REPLACE INTO / DELETE FROM step_hash (with the _has_hash triggers) *)
 Definition set_step_hash (g : graph) (k : N) (b : bool) : graph :=
@@ -698,6 +707,46 @@ Definition inc_defer (g : graph) (k : N) : graph :=
   with_steps g (map (fun s => if s_key s =? k
                               then set_life s (s_state s) (s_deferred s) (s_defer_count s + 1) (s_holding s)
                               else s) (g_steps g)).
+
+(* INSERT INTO node + INSERT INTO file on a fresh node id (File.initialize_row, fresh-insert arm:
+   hash NULL; step_file_check_ready_ins fires) *)
+Definition create_file (g : graph) (k : N) (label : str) (st : N) (det : bool) (creator : option N) : graph :=
+  run_trigger trg_file_ins k None (with_files g (g_files g ++ [mkFile k label st det creator false])).
+(* DELETE FROM step WHERE node = k (Step.initialize_row) / DELETE FROM node (cascade) *)
+Definition delete_step (g : graph) (k : N) : graph :=
+  with_steps g (filter (fun s => negb (s_key s =? k)) (g_steps g)).
+Definition delete_file (g : graph) (k : N) : graph :=
+  with_files g (filter (fun f => negb (f_key f =? k)) (g_files g)).
+(* UPDATE node SET creator = ?, detached = ? on a file node (Trellis.create, recycle branch) *)
+Definition place_file (g : graph) (k : N) (creator : option N) (det : bool) : graph :=
+  match find_file g k with
+  | None => g
+  | Some _ =>
+      let g0 := set_detached_nodes g [k] det in
+      with_files g0 (map (fun f => if f_key f =? k then set_fplace f det creator else f) (g_files g0))
+  end.
+(* Step.after_recycle: UPDATE step SET need = ?, shell = ?, _holding = 0 *)
+Definition set_need_hold (s : step) (nd : N) : step :=
+  mkStep (s_key s) (s_state s) nd (s_deferred s) (s_defer_count s) 0 (s_detached s)
+    (s_creator s) (s_safe s) (s_safe_nh s) (s_ineed s) (s_ready s) (s_has_hash s) (s_hash_stored s)
+    (s_chk_safe s) (s_chk_after s) (s_chk_ready s) (s_duration s) (s_tail s) (s_res s).
+Definition set_step_need (g : graph) (k nd : N) : graph :=
+  with_steps g (map (fun s => if s_key s =? k then set_need_hold s nd else s) (g_steps g)).
+(* Step.set_duration (fires step_flag_check_after_duration) *)
+Definition set_dur (s : step) (d : N) : step :=
+  mkStep (s_key s) (s_state s) (s_need s) (s_deferred s) (s_defer_count s) (s_holding s) (s_detached s)
+    (s_creator s) (s_safe s) (s_safe_nh s) (s_ineed s) (s_ready s) (s_has_hash s) (s_hash_stored s)
+    (s_chk_safe s) (s_chk_after s) (s_chk_ready s) d (s_tail s) (s_res s).
+Definition set_step_duration (g : graph) (k d : N) : graph :=
+  run_trigger trg_duration k None
+    (with_steps g (map (fun s => if s_key s =? k then set_dur s d else s) (g_steps g))).
+(* Step.set_resources (DELETE + INSERT INTO step_resource) *)
+Definition set_res (s : step) (r : list (str * N)) : step :=
+  mkStep (s_key s) (s_state s) (s_need s) (s_deferred s) (s_defer_count s) (s_holding s) (s_detached s)
+    (s_creator s) (s_safe s) (s_safe_nh s) (s_ineed s) (s_ready s) (s_has_hash s) (s_hash_stored s)
+    (s_chk_safe s) (s_chk_after s) (s_chk_ready s) (s_duration s) (s_tail s) r.
+Definition set_step_res (g : graph) (k : N) (r : list (str * N)) : graph :=
+  with_steps g (map (fun s => if s_key s =? k then set_res s r else s) (g_steps g)).
 
 Definition apply_prim (g : graph) (p : prim) : option graph :=
   match p with
@@ -713,6 +762,13 @@ Definition apply_prim (g : graph) (p : prim) : option graph :=
   | PSetHash k b => Some (set_step_hash g k b)
   | PIncDefer k => Some (inc_defer g k)
   | PCreate k cr det need safe stored dur res => Some (create_step g k cr det need safe stored dur res)
+  | PCreateFile k label st det cr => Some (create_file g k label st det cr)
+  | PDeleteStep k => Some (delete_step g k)
+  | PDeleteFile k => Some (delete_file g k)
+  | PPlaceFile k cr det => Some (place_file g k cr det)
+  | PSetNeed k need => Some (set_step_need g k need)
+  | PSetDuration k d => Some (set_step_duration g k d)
+  | PSetRes k res => Some (set_step_res g k res)
   end.
 
 Fixpoint run_prims (g : graph) (l : list prim) : option graph :=
@@ -721,7 +777,7 @@ Fixpoint run_prims (g : graph) (l : list prim) : option graph :=
   | p :: r => match apply_prim g p with Some g1 => run_prims g1 r | None => None end
   end.
 
-(* decidable side conditions of the primitives (PCreate is not covered: it needs a rank) *)
+(* decidable side conditions of the primitives *)
 Definition outputs_owned_b (g : graph) (S : list N) : bool :=
   forallb (fun d => match find_file g (d_snk d) with
                     | Some f => implb (mem_N (f_key f) S) (mem_N (d_src d) S)
@@ -731,19 +787,51 @@ Definition no_edge_into_b (g : graph) (S : list N) : bool :=
                     | Some f => negb (mem_N (f_key f) S)
                     | None => true end) (g_deps g).
 
+(* a computable rank for the creator forest: the number of step ancestors (fuel = number of steps);
+   creator_rank_b with this rank decides that the forest is well founded *)
+Fixpoint cdepth (n : nat) (g : graph) (s : step) : nat :=
+  match n with
+  | O => O
+  | S n' => match creator_step g s with None => O | Some c => S (cdepth n' g c) end
+  end.
+Definition crank (g : graph) (k : N) : nat :=
+  match find_step g k with Some s => cdepth (length (g_steps g)) g s | None => O end.
+Definition creator_acyclic_b (g : graph) : bool := creator_rank_b g (crank g).
+
+Definition ocreator_is (o : option N) (k : N) : bool := match o with Some c => c =? k | None => false end.
+Definition no_edge_to_b (g : graph) (k : N) : bool := forallb (fun d => negb (d_snk d =? k)) (g_deps g).
+Definition no_edge_at_b (g : graph) (k : N) : bool :=
+  forallb (fun d => negb (d_src d =? k) && negb (d_snk d =? k)) (g_deps g).
+Definition no_child_step_b (g : graph) (k : N) : bool :=
+  forallb (fun s => negb (ocreator_is (s_creator s) k)) (g_steps g).
+Definition no_step_key_b (g : graph) (k : N) : bool := forallb (fun s => negb (s_key s =? k)) (g_steps g).
+
 Definition prim_ok_b (g : graph) (p : prim) : bool :=
   match p with
   | PSetState _ _ _ | PHold _ | PRelease _ | PInsDep _ | PDelDep _ | PSetHash _ _ | PIncDefer _ => true
   | PSetFileState k st _ =>
       forallb (fun f => negb (f_key f =? k) || Bool.eqb (f_state f =? FS_VOLATILE) (st =? FS_VOLATILE)) (g_files g)
+      || no_edge_to_b g k
   | PDetach k =>
       forallb (fun f => negb (f_key f =? k)) (g_files g) && outputs_owned_b g (k :: below g k)
   | PDetachFile k =>
-      forallb (fun s => negb (mem_N (s_key s) (k :: below g k))) (g_steps g) && no_edge_into_b g (k :: below g k)
+      (forallb (fun s => negb (mem_N (s_key s) (k :: below g k))) (g_steps g) && no_edge_into_b g (k :: below g k))
+      || (no_step_key_b g k && forallb (fun f => negb (f_key f =? k) || f_detached f) (g_files g))
   | PReattach k _ cdet =>
       outputs_owned_b g (k :: below g k)
       && (negb cdet || forallb (fun s => negb (mem_N (s_key s) (k :: below g k)) || s_detached s) (g_steps g))
-  | PCreate _ _ _ _ _ _ _ _ => false
+  | PCreate k creator _ _ safe _ _ _ =>
+      no_step_key_b g k && no_edge_to_b g k && no_child_step_b g k && creator_acyclic_b g
+      && (negb safe || match creator with
+                       | None => true
+                       | Some c => negb (c =? k) && no_step_key_b g c
+                       end)
+  | PCreateFile k _ _ _ _ => forallb (fun f => negb (f_key f =? k)) (g_files g) && no_edge_at_b g k
+  | PDeleteStep k => no_child_step_b g k && no_edge_to_b g k && creator_acyclic_b (delete_step g k)
+  | PDeleteFile k => no_edge_at_b g k
+  | PPlaceFile k _ _ => no_step_key_b g k && no_edge_to_b g k
+  | PSetNeed k _ => forallb (fun s => negb (s_key s =? k) || (s_chk_safe s && s_chk_after s)) (g_steps g)
+  | PSetDuration _ _ | PSetRes _ _ => true
   end.
 
 Fixpoint run_ok_b (g : graph) (l : list prim) : bool :=
